@@ -3,7 +3,6 @@
 //! uninitialised slot or a data race is reported by the interpreter itself.
 use futures_core::Stream;
 use std::future::Future;
-use std::pin::Pin;
 use std::sync::atomic::{AtomicBool, AtomicUsize, Ordering};
 use std::sync::Arc;
 use std::task::{Context, Poll, Wake, Waker};
@@ -360,6 +359,355 @@ fn zst_and_padding() {
     t.join().unwrap();
 }
 
+/// zero-sized message with a destructor: accounted by count only
+struct ZD;
+static ZLIVE: AtomicUsize = AtomicUsize::new(0);
+impl ZD {
+    fn new() -> ZD {
+        ZLIVE.fetch_add(1, Ordering::SeqCst);
+        ZD
+    }
+}
+impl Drop for ZD {
+    fn drop(&mut self) {
+        ZLIVE.fetch_sub(1, Ordering::SeqCst);
+    }
+}
+fn realtime_contention() {
+    let (s, r) = kanal::bounded::<Msg>(1);
+    let s2 = s.clone();
+    let r2 = r.clone();
+    let t1 = thread::spawn(move || {
+        let mut sent = 0;
+        for i in 0..6 {
+            if s2.try_send_realtime(Msg::new(100 + i)).unwrap_or(false) {
+                sent += 1;
+            }
+            let mut o = Some(Msg::new(200 + i));
+            if s2.try_send_option_realtime(&mut o).unwrap_or(false) {
+                assert!(o.is_none());
+                sent += 1;
+            } else {
+                assert!(o.is_some());
+            }
+        }
+        sent
+    });
+    let t2 = thread::spawn(move || {
+        let mut got = 0;
+        for _ in 0..8 {
+            if let Ok(Some(m)) = r2.try_recv_realtime() {
+                m.check();
+                got += 1;
+            }
+            if let Ok(Some(m)) = r2.try_recv() {
+                m.check();
+                got += 1;
+            }
+        }
+        got
+    });
+    let _ = s.try_send(Msg::new(1));
+    let sent = t1.join().unwrap();
+    let got = t2.join().unwrap();
+    drop(s);
+    let mut rest = 0;
+    while let Ok(m) = r.recv() {
+        m.check();
+        rest += 1;
+    }
+    assert!(got + rest >= sent && got + rest <= sent + 1);
+}
+fn drain_async_pending_senders() {
+    let (s, r) = kanal::bounded_async::<Msg>(0);
+    let r = r.to_sync();
+    let mut ts = vec![];
+    for k in 0..2u64 {
+        let s = s.clone();
+        ts.push(thread::spawn(move || {
+            block_on_fresh_wakers(s.send(Msg::new(k))).unwrap();
+        }));
+    }
+    let s3 = s.clone_sync();
+    ts.push(thread::spawn(move || {
+        s3.send(Msg::new(2)).unwrap();
+    }));
+    drop(s);
+    let mut v = vec![Msg::new(77)];
+    let mut n = 0;
+    while n < 3 {
+        n += r.drain_into(&mut v).unwrap();
+        thread::yield_now();
+    }
+    assert_eq!(v.len(), 4);
+    assert_eq!(v[0].id, 77);
+    for m in &v {
+        m.check();
+    }
+    for t in ts {
+        t.join().unwrap();
+    }
+}
+fn iter_until_disconnect() {
+    let (s, r) = kanal::bounded::<Msg>(2);
+    let s2 = s.clone_async();
+    let t1 = thread::spawn(move || {
+        for i in 0..3 {
+            s.send(Msg::new(i)).unwrap();
+        }
+    });
+    let t2 = thread::spawn(move || {
+        block_on(async {
+            for i in 10..12 {
+                s2.send(Msg::new(i)).await.unwrap();
+            }
+        })
+    });
+    let mut n = 0;
+    let mut last_a = None;
+    for m in r {
+        m.check();
+        if m.id < 10 {
+            assert!(last_a.map_or(true, |l| l < m.id));
+            last_a = Some(m.id);
+        }
+        n += 1;
+    }
+    assert_eq!(n, 5);
+    t1.join().unwrap();
+    t2.join().unwrap();
+}
+fn clone_convert_drop_race() {
+    let (s, r) = kanal::bounded::<Msg>(1);
+    let mut ts = vec![];
+    for k in 0..2u64 {
+        let s = s.clone();
+        ts.push(thread::spawn(move || {
+            let a = s.clone_async();
+            let b = a.clone();
+            drop(s);
+            let c = b.to_sync();
+            c.send(Msg::new(k)).unwrap();
+            assert!(a.sender_count() >= 2);
+            drop(a);
+            let _ = c.as_async().try_send(Msg::new(10 + k));
+        }));
+    }
+    drop(s);
+    let ra = r.clone_async();
+    let t = thread::spawn(move || {
+        let mut n = 0;
+        while let Ok(m) = block_on(ra.recv()) {
+            m.check();
+            n += 1;
+        }
+        n
+    });
+    let mut n = 0;
+    while let Ok(m) = r.recv() {
+        m.check();
+        n += 1;
+    }
+    n += t.join().unwrap();
+    assert!((2..=4).contains(&n));
+    assert_eq!(r.sender_count(), 0);
+    for t in ts {
+        t.join().unwrap();
+    }
+}
+fn close_with_buffered_and_blocked() {
+    let (s, r) = kanal::bounded::<Msg>(2);
+    s.send(Msg::new(1)).unwrap();
+    s.send(Msg::new(2)).unwrap();
+    let s2 = s.clone();
+    let t1 = thread::spawn(move || {
+        let _ = s2.send(Msg::new(3));
+    });
+    let s3 = s.clone_async();
+    let t2 = thread::spawn(move || {
+        let _ = block_on(s3.send(Msg::new(4)));
+    });
+    let t3 = thread::spawn(move || {
+        let mut o = Some(Msg::new(5));
+        let res = s.send_option_timeout(&mut o, Duration::from_secs(5));
+        assert_eq!(res.is_ok(), o.is_none());
+    });
+    thread::yield_now();
+    r.close().unwrap();
+    assert_eq!(r.len(), 0);
+    assert!(r.close().is_err());
+    t1.join().unwrap();
+    t2.join().unwrap();
+    t3.join().unwrap();
+}
+fn timed_handoff_races() {
+    let (s, r) = kanal::bounded::<Small>(0);
+    let t = thread::spawn(move || {
+        let mut sent = 0u32;
+        for i in 0..3u32 {
+            let mut o = Some(Small(Box::new(i)));
+            match s.send_option_timeout(&mut o, Duration::from_micros(150)) {
+                Ok(()) => {
+                    assert!(o.is_none());
+                    sent += 1
+                }
+                Err(_) => assert_eq!(*o.take().unwrap().0, i),
+            }
+            if s.send_timeout(Small(Box::new(50 + i)), Duration::from_micros(150)).is_ok() {
+                sent += 1;
+            }
+        }
+        sent
+    });
+    let mut got = 0u32;
+    // bounded number of attempts: under Miri's fast virtual clock a short deadline has usually passed
+    // before the disconnect check is reached, so "until disconnected" would never end
+    for _ in 0..60 {
+        match r.recv_timeout(Duration::from_micros(120)) {
+            Ok(v) => {
+                assert!(*v.0 < 100);
+                got += 1
+            }
+            Err(kanal::ReceiveErrorTimeout::Timeout) => continue,
+            Err(_) => break,
+        }
+    }
+    drop(r);
+    assert_eq!(got, t.join().unwrap());
+}
+fn zst_with_drop() {
+    let (s, r) = kanal::bounded::<ZD>(1);
+    let s2 = s.clone();
+    let t = thread::spawn(move || {
+        for _ in 0..3 {
+            s2.send(ZD::new()).unwrap();
+        }
+        let _ = s2.send_timeout(ZD::new(), Duration::from_micros(100));
+    });
+    let a = r.recv().unwrap();
+    let b = r.recv_timeout(Duration::from_secs(5)).unwrap();
+    drop((a, b));
+    t.join().unwrap();
+    let _ = s.try_send(ZD::new());
+    // whatever is still buffered is destroyed by close
+    r.close().unwrap();
+    drop((s, r));
+    assert_eq!(ZLIVE.load(Ordering::SeqCst), 0, "zero-sized message leaked or dropped twice");
+}
+fn stream_dropped_midway() {
+    let (s, r) = kanal::bounded_async::<Msg>(0);
+    let s2 = s.clone_sync();
+    let t = thread::spawn(move || {
+        let mut ok = 0;
+        for i in 0..3 {
+            if s2.send_timeout(Msg::new(i), Duration::from_millis(20)).is_ok() {
+                ok += 1;
+            }
+        }
+        ok
+    });
+    let mut got = 0;
+    {
+        let mut st = Box::pin(r.stream());
+        let (a, w) = new_waker();
+        let mut cx = Context::from_waker(&w);
+        loop {
+            match st.as_mut().poll_next(&mut cx) {
+                Poll::Ready(Some(m)) => {
+                    m.check();
+                    got += 1;
+                    break;
+                }
+                Poll::Ready(None) => break,
+                Poll::Pending => {
+                    while !a.f.swap(false, Ordering::SeqCst) {
+                        thread::park();
+                    }
+                }
+            }
+        }
+        // start the next receive, then abandon the stream while the sender may be handing off
+        let _ = st.as_mut().poll_next(&mut cx);
+        thread::yield_now();
+    }
+    drop(r);
+    drop(s);
+    let ok = t.join().unwrap();
+    assert!(got <= ok);
+}
+fn async_mpmc_cap1() {
+    let (s, r) = kanal::bounded_async::<Msg>(1);
+    let mut ts = vec![];
+    for k in 0..2u64 {
+        let s = s.clone();
+        ts.push(thread::spawn(move || {
+            block_on(async {
+                for i in 0..2 {
+                    s.send(Msg::new(k * 10 + i)).await.unwrap();
+                }
+            });
+            0
+        }));
+    }
+    drop(s);
+    for _ in 0..2 {
+        let r = r.clone();
+        ts.push(thread::spawn(move || {
+            let mut n = 0;
+            while let Ok(m) = block_on_fresh_wakers(r.recv()) {
+                m.check();
+                n += 1;
+            }
+            n
+        }));
+    }
+    drop(r);
+    let total: i32 = ts.into_iter().map(|t| t.join().unwrap()).sum();
+    assert_eq!(total, 4);
+}
+fn unbounded_burst() {
+    let (s, r) = kanal::unbounded::<Msg>();
+    let t = thread::spawn(move || {
+        for i in 0..12 {
+            s.send(Msg::new(i)).unwrap();
+            if i % 4 == 0 {
+                assert!(s.try_send(Msg::new(100 + i)).unwrap());
+            }
+        }
+    });
+    let mut last = None;
+    let mut n = 0;
+    while let Ok(m) = r.recv() {
+        m.check();
+        if m.id < 100 {
+            assert!(last.map_or(true, |l| l < m.id));
+            last = Some(m.id);
+        }
+        n += 1;
+    }
+    assert_eq!(n, 15);
+    t.join().unwrap();
+}
+fn last_receiver_drop_releases_senders() {
+    let (s, r) = kanal::bounded::<Msg>(0);
+    let s2 = s.clone();
+    let t1 = thread::spawn(move || {
+        assert!(s2.send(Msg::new(1)).is_err());
+    });
+    let s3 = s.clone_async();
+    let t2 = thread::spawn(move || {
+        assert!(block_on(s3.send(Msg::new(2))).is_err());
+    });
+    let r2 = r.clone_async();
+    drop(r);
+    thread::yield_now();
+    drop(r2);
+    t1.join().unwrap();
+    t2.join().unwrap();
+    assert!(s.send(Msg::new(3)).is_err());
+    assert!(s.is_disconnected());
+}
+
 pub const SCENARIOS: &[(&str, fn())] = &[
     ("sync_rendezvous", sync_rendezvous),
     ("sync_mpsc_cap1", sync_mpsc_cap1),
@@ -376,6 +724,17 @@ pub const SCENARIOS: &[(&str, fn())] = &[
     ("zst_and_padding", zst_and_padding),
     ("async_recv_busy_poll", async_recv_busy_poll),
     ("async_send_busy_poll", async_send_busy_poll),
+    ("realtime_contention", realtime_contention),
+    ("drain_async_pending_senders", drain_async_pending_senders),
+    ("iter_until_disconnect", iter_until_disconnect),
+    ("clone_convert_drop_race", clone_convert_drop_race),
+    ("close_with_buffered_and_blocked", close_with_buffered_and_blocked),
+    ("timed_handoff_races", timed_handoff_races),
+    ("zst_with_drop", zst_with_drop),
+    ("stream_dropped_midway", stream_dropped_midway),
+    ("async_mpmc_cap1", async_mpmc_cap1),
+    ("unbounded_burst", unbounded_burst),
+    ("last_receiver_drop_releases_senders", last_receiver_drop_releases_senders),
 ];
 
 fn main() {
